@@ -1,8 +1,14 @@
 """C02 -- general (nonsymmetric) solvers return only genuine unit-norm eigenpairs (structural clauses)."""
-from . import eigsbase
+from . import eigsbase, shiftsolvers
 
-EXPLANATION = ('placeholder')
-ASSUMPTIONS = []
+EXPLANATION = (
+    'Static analysis of the instantiated GenEigsBase family (clang AST + CFG, all paths, all analysed instantiations). '
+    'Decides the same structural clauses as C01 on the general base: flag freshness at every consumer, fresh count, coherent '
+    'permutation (final sort and retrieve_ritzpair), documented form of the convergence test, accessor selection and '
+    'V*(selected vectors), and for the real- / complex-shift solvers that the first nev Ritz values are transformed back to '
+    'the spectrum of A before the base sort on every normal path and not touched afterwards. Does NOT decide residuals, '
+    'unit norm, the choice of root in the complex-shift back-transformation or distinctness of pairs.')
+ASSUMPTIONS = ['Eigen kernels and std::sort are correct', 'instantiations listed in drivers/ are representative of every OpType']
 BASE = 'Spectra::GenEigsBase'
 
 
@@ -11,3 +17,9 @@ def run(ctx):
     eigsbase.coherent_permutation(ctx, BASE)
     eigsbase.coherent_retrieve(ctx, BASE)
     eigsbase.convergence_test_shape(ctx, BASE)
+    eigsbase.accessor_agreement(ctx, BASE)
+    shiftsolvers.backtransform_before_sort(ctx, BASE, 2)
+    shiftsolvers.shifted_classes_override(ctx, BASE)
+    ctx.require('flags-fresh-at-use', 3)
+    ctx.require('coherent-permutation', 3)
+    ctx.require('backtransform-then-base-sort', 2)
